@@ -183,3 +183,98 @@ def _freeze(l):
     if l[0] == 'field': return ('field', l[1], l[2], _freeze(l[3]))
     if l[0] in ('elem', 'deref'): return (l[0], _freeze(l[1]))
     return l
+
+
+# ---------------------------------------------------------------- generic helpers
+
+def accesses(fn, res=None):
+    """yield (ins, 'load'|'store', location) for every load/store of fn"""
+    res = res or Resolver(fn)
+    for x in fn.ins:
+        if x.op == 'load': yield x, 'load', res.loc(x.ops[0])
+        elif x.op == 'store': yield x, 'store', res.loc(x.ops[1])
+
+def stores_to(prog, cls_pred):
+    """all store instructions in the program whose location class satisfies cls_pred(loc_class, loc)"""
+    out = []
+    for f in set(prog.functions.values()):
+        res = Resolver(f)
+        for x in f.ins:
+            if x.op == 'store':
+                l = res.loc(x.ops[1])
+                if cls_pred(loc_class(l), l): out.append(x)
+    return out
+
+def loads_of(prog, cls_pred):
+    out = []
+    for f in set(prog.functions.values()):
+        res = Resolver(f)
+        for x in f.ins:
+            if x.op == 'load':
+                l = res.loc(x.ops[0])
+                if cls_pred(loc_class(l), l): out.append(x)
+    return out
+
+def is_global(name):
+    return lambda c, l: c == ('global', name)
+
+def is_field(field, struct=None):
+    return lambda c, l: c[0] == 'field' and c[2] == field and (struct is None or c[1] == struct)
+
+def is_named(name):
+    """global `name` (non-reentrant scanners) or struct field `name` / `name_r` (reentrant: yyguts_t members)"""
+    def p(c, l):
+        if c == ('global', name): return True
+        return c[0] == 'field' and c[2] in (name, name + '_r')
+    return p
+
+def value_slice(fn, v, depth=0, seen=None):
+    """instructions that compute value v inside fn (backward slice through registers; loads are leaves)"""
+    if seen is None: seen = set()
+    out = []
+    if not isinstance(v, tuple) or v[0] != 'reg' or depth > 40: return out
+    d = fn.def_of(v)
+    if d is None or d in seen: return out
+    seen.add(d); out.append(d)
+    if d.op in ('load', 'alloca'): return out
+    if d.op in ('call', 'invoke'):
+        for a in d.ops: out += value_slice(fn, a, depth + 1, seen)
+        return out
+    for o in d.ops: out += value_slice(fn, o, depth + 1, seen)
+    return out
+
+def cond_loads(fn, br, res=None):
+    """locations loaded while computing the condition of conditional branch / switch `br`.
+    For && / || chains clang -O0 emits separate branches, so each branch sees only its own operand."""
+    res = res or Resolver(fn)
+    if not br.ops: return []
+    out = []
+    for d in value_slice(fn, br.ops[0]):
+        if d.op == 'load': out.append((d, res.loc(d.ops[0])))
+    return out
+
+def cond_calls(fn, br):
+    if not br.ops: return []
+    return [d for d in value_slice(fn, br.ops[0]) if d.op in ('call', 'invoke')]
+
+def controlling_locs(prog, ins):
+    """set of location classes read by the branch conditions that (transitively) control whether `ins` executes"""
+    fn = ins.fn; cfg = prog.cfg(fn, cut=False); res = Resolver(fn)
+    out = set()
+    for br, t in cfg.control_deps_closure(ins.blk):
+        for d, l in cond_loads(fn, br, res): out.add(loc_class(l))
+    return out
+
+def const_arg(fn, a):
+    """C string / integer constant of a call argument (looks through gettext()/_() and casts), else None"""
+    if a[0] == 'int': return a[1]
+    s_ = fn.mod.cstring(a)
+    if s_ is not None: return s_
+    d = fn.def_of(strip_casts(fn, a))
+    if d is not None and d.op == 'call' and d.callee in ('gettext', 'dgettext', 'dcgettext') and d.ops:
+        return fn.mod.cstring(d.ops[-1] if d.callee == 'gettext' else d.ops[1])
+    return None
+
+def const_args(mod, call):
+    """list with the C string / integer constant of each argument, None when not constant"""
+    return [const_arg(call.fn, a) for a in call.ops]
